@@ -79,6 +79,7 @@ import (
 	"github.com/foxcpp/maddy/framework/buffer"
 	"github.com/foxcpp/maddy/framework/config"
 	modconfig "github.com/foxcpp/maddy/framework/config/module"
+	"github.com/foxcpp/maddy/framework/dns"
 	"github.com/foxcpp/maddy/framework/exterrors"
 	"github.com/foxcpp/maddy/framework/log"
 	"github.com/foxcpp/maddy/framework/module"
@@ -937,9 +938,16 @@ func (q *Queue) emitDSN(meta *QueueMetadata, header textproto.Header, failedRcpt
 		return
 	}
 
+	// The header of a report that is not a SMTPUTF8 message has to be ASCII,
+	// as it is done for Reporting-MTA.
+	autogenMsgDomain, err := dns.SelectIDNA(meta.MsgMeta.SMTPOpts.UTF8, q.autogenMsgDomain)
+	if err != nil {
+		autogenMsgDomain = q.autogenMsgDomain
+	}
+
 	dsnEnvelope := dsn.Envelope{
-		MsgID: "<" + dsnID + "@" + q.autogenMsgDomain + ">",
-		From:  "MAILER-DAEMON@" + q.autogenMsgDomain,
+		MsgID: "<" + dsnID + "@" + autogenMsgDomain + ">",
+		From:  "MAILER-DAEMON@" + autogenMsgDomain,
 		To:    meta.MsgMeta.OriginalFrom,
 	}
 	mtaInfo := dsn.ReportingMTAInfo{
